@@ -12,12 +12,24 @@
      - whatever is written while the override is Unsafe is written in unsafe mode (D2), and an
        unsafe segment contributes nothing but line feeds to the text outside envelopes;
      - Redact() keeps exactly that text and replaces every envelope body by the cross (C07).
-   NOT proved: that the printer makes the same calls for two instantiations of the unsafe leaves
-   and writes every leaf that is not declared safe in unsafe mode (parametricity of the
-   evaluator in its leaf payloads); this is decided by the correspondence and the black-box
-   predicate (three instantiations per shape, Redact() compared byte for byte). *)
+     - END TO END FOR LEAF OPERANDS (C02_sprintf_leaf_noninterference): two calls Sprintf(f, a1...)
+       and Sprintf(f, a2...) whose operands are values of basic kinds (bool, all integer kinds,
+       strings, of named or unnamed types; floats and nil equal) differing only in unsafe content
+       (integers other than 0 and 10 against each other, strings position by position: equal
+       bytes or ASCII bytes other than LF on both sides; SafeValue / registered operands equal)
+       return strings whose Redact() is byte-identical - for EVERY format without '*' (all flags,
+       widths, precisions, argument indexes, bad verbs and the MISSING/EXTRA/BADINDEX/NOVERB
+       diagnostics), every fuel, every sane strconv oracle.  Proved by a relational Hoare logic
+       over the evaluator run in lock step on the two inputs (LeafNI.v), the segment relation of
+       SegNI.v (the two runs do not make the same number of Buffer calls: padding) and the
+       formatter lemmas of FmtNI.v.
+   NOT proved: the same for containers, pointers, floats that differ, '*' widths and user
+   methods (the two runs then also differ in control flow inside scripts); decided by the
+   correspondence and the black-box predicate (three instantiations per shape, Redact()
+   compared byte for byte). *)
 From Redact Require Import Bytes Tokens Utf8 Markers Buffer Ops BufInv BufContent LBuf Printer.
-From Redact Require Import TokensP MarkersP BufInvP BufContentP RedactNI Hoare Discipline.
+From Redact Require Import TokensP MarkersP BufInvP BufContentP RedactNI Hoare Discipline SegNI FmtNI LeafNI Api.
+From Coq Require Import Lia ZArith.
 Import List ListNotations.
 
 Theorem C02_buffer_noninterference : forall ops1 ops2,
@@ -26,6 +38,67 @@ Theorem C02_buffer_noninterference : forall ops1 ops2,
   redact_b (output ops1) = redact_b (output ops2).
 Proof. exact redact_noninterference. Qed.
 Print Assumptions C02_buffer_noninterference.
+
+(* ... also when the two histories group their unsafe writes differently (padding) *)
+Theorem C02_buffer_noninterference_regrouped : forall ops1 ops2 m',
+  dsim MUnsafe ops1 ops2 m' -> rawok ops1 = true ->
+  ptail_ok_from init ops1 = true -> ptail_ok_from init ops2 = true ->
+  redact_b (output ops1) = redact_b (output ops2).
+Proof. exact redact_noninterference_seg. Qed.
+Print Assumptions C02_buffer_noninterference_regrouped.
+
+(* The printer, end to end, on leaf operands *)
+Theorem C02_sprintf_leaf_noninterference : forall fuel env f a1 a2 o1 o2,
+  osane (orc env) -> no_star f = true -> Forall2 lrel a1 a2 ->
+  sprintf fuel env f a1 = ROk o1 -> sprintf fuel env f a2 = ROk o2 ->
+  forall ops1 ops2, o_log o1 = ops1 ++ [OTake] -> o_log o2 = ops2 ++ [OTake] ->
+  rawok ops1 = true -> ptail_ok_from init ops1 = true -> ptail_ok_from init ops2 = true ->
+  redact_b (o_bytes o1) = redact_b (o_bytes o2).
+Proof. exact sprintf_leaf_noninterference. Qed.
+Print Assumptions C02_sprintf_leaf_noninterference.
+
+(* Non-vacuity: Sprintf("u=%s id=%+08d %x|%q %v!", ...) on two instantiations; the hypotheses
+   hold, the outputs differ, their redactions agree *)
+Definition c02_fmt : bytes := [117;61;37;115;32;105;100;61;37;43;48;56;100;32;37;120;124;37;113;32;37;118;33]%N.
+Definition c02_t (n : bytes) := mkT n false false.
+Definition c02_a1 : list value :=
+  [VStr (c02_t [115;116;114;105;110;103]%N) [97;108;10;105]%N; VInt (c02_t [105;110;116]%N) 42%Z;
+   VStr (c02_t [115;116;114;105;110;103]%N) [97;98]%N; VUint (c02_t [117;105;110;116]%N) 65%Z; VBool (c02_t [98;111;111;108]%N) true].
+Definition c02_a2 : list value :=
+  [VStr (c02_t [115;116;114;105;110;103]%N) [122;122;10;121]%N; VInt (c02_t [105;110;116]%N) 7777%Z;
+   VStr (c02_t [115;116;114;105;110;103]%N) [99;100]%N; VUint (c02_t [117;105;110;116]%N) 66%Z; VBool (c02_t [98;111;111;108]%N) false].
+Definition c02_orc : Fmt.oracle := [(Fmt.KQuoteRune 65%Z, [39;65;39]%N); (Fmt.KQuoteRune 66%Z, [39;66;39]%N)].
+
+Lemma c02_osane : osane c02_orc.
+Proof.
+  intros k v H. unfold c02_orc in H. cbn [Fmt.olookup] in H.
+  destruct (Fmt.okey_eqb k (Fmt.KQuoteRune 65)) eqn:E1; [injection H as <-|].
+  { destruct k; try discriminate. split; [discriminate|]. split; [repeat constructor; discriminate|]. split; intros; discriminate. }
+  destruct (Fmt.okey_eqb k (Fmt.KQuoteRune 66)) eqn:E2; [injection H as <-|discriminate].
+  destruct k; try discriminate. split; [discriminate|]. split; [repeat constructor; discriminate|]. split; intros; discriminate.
+Qed.
+
+Ltac c02_srel := cbn [srel]; repeat (split; [first [left; reflexivity | right; (split; [reflexivity|]; split; [reflexivity|]; split; discriminate)]|]); exact Logic.I.
+Ltac c02_lrel := split; [reflexivity|]; split; [reflexivity|]; right; split; [reflexivity|]; split; [reflexivity|].
+
+Lemma c02_args_related : Forall2 lrel c02_a1 c02_a2.
+Proof.
+  unfold c02_a1, c02_a2. constructor; [|constructor; [|constructor; [|constructor; [|constructor; [|constructor]]]]].
+  - c02_lrel. split; [reflexivity | c02_srel].
+  - c02_lrel. split; [reflexivity|]. unfold irel, Fmt.two64. lia.
+  - c02_lrel. split; [reflexivity | c02_srel].
+  - c02_lrel. split; [reflexivity|]. unfold irel, Fmt.two64. lia.
+  - c02_lrel. reflexivity.
+Qed.
+
+Example C02_sprintf_nonvacuous :
+  match sprintf 20 (mkEnv c02_orc None) c02_fmt c02_a1, sprintf 20 (mkEnv c02_orc None) c02_fmt c02_a2 with
+  | ROk o1, ROk o2 =>
+    no_star c02_fmt = true /\ o_bytes o1 <> o_bytes o2 /\ redact_b (o_bytes o1) = redact_b (o_bytes o2) /\
+    rawok (removelast (o_log o1)) = true /\ ptail_ok_from init (removelast (o_log o1)) = true /\ ptail_ok_from init (removelast (o_log o2)) = true
+  | _, _ => False
+  end.
+Proof. vm_compute. repeat split; congruence. Qed.
 
 (* Redact() depends on the shape only: the text outside envelopes and, per envelope, whether it is
    closed and whether it is empty *)
